@@ -1,5 +1,119 @@
-From Coq Require Import List ZArith Bool.
+(* C52 Observable grouping partitions correctly.
+   Statements only; every proof is `exact <lemma>` from Disc/GroupingProofs.v.
+   The graph colouring (rustworkx / recursive_largest_first) is an oracle: the theorems hold for EVERY
+   colouring that the boolean checker `properb` accepts; the check evaluates `properb` on the recorded one. *)
+From Coq Require Import List ZArith Bool Permutation.
 From PLV Require Import Disc.GroupingModel Disc.GroupingProofs.
 Import ListNotations.
-Theorem stub : forall v, qwc [] v = true. Proof. exact qwc_nil. Qed.
-Print Assumptions stub.
+
+(* the symplectic computation of _adj_matrix_from_symplectic is the negation of the relation, entry by entry,
+   for every list of words of a common length and each of the three grouping types *)
+Theorem adjacency_iff_relation : forall g n ws, Forall (fun w => length w = n) ws ->
+  adj_matrix g (symp_matrix ws) = map (fun wi => map (fun wj => negb (rel g wi wj)) ws) ws.
+Proof. exact adjacency_iff_relation_l. Qed.
+Print Assumptions adjacency_iff_relation.
+
+Theorem relation_symmetric : forall g u v, rel g u v = rel g v u.
+Proof. exact rel_sym. Qed.
+Print Assumptions relation_symmetric.
+
+Theorem qwc_implies_commuting : forall u v, qwc u v = true -> commuting u v = true.
+Proof. exact qwc_commuting. Qed.
+Print Assumptions qwc_implies_commuting.
+
+(* binary_to_pauli inverts pauli_to_binary (used on the recursive_largest_first path) *)
+Theorem binary_roundtrip : forall w, from_symp (to_symp w) = w.
+Proof. exact from_to_symp. Qed.
+Print Assumptions binary_roundtrip.
+
+(* every colouring that is proper for the complement graph built from the adjacency matrix gives index
+   groups in which each index occurs exactly once and whose members are pairwise related *)
+Theorem partition_from_proper_colouring : forall g n ws cols,
+  Forall (fun w => length w = n) ws ->
+  properb (adj_matrix g (symp_matrix ws)) cols = true ->
+  Permutation (concat (idx_partitions cols)) (seq 0 (length ws)) /\
+  Forall (ForallOrdPairs (fun i j => rel g (nth i ws []) (nth j ws []) = true)) (idx_partitions cols).
+Proof. exact partition_from_proper_colouring_l. Qed.
+Print Assumptions partition_from_proper_colouring.
+
+(* the boolean checker evaluated on the implementation's output is sound *)
+Theorem valid_grouping_sound : forall r ws gs, valid_grouping r ws gs = true ->
+  Permutation (concat gs) (seq 0 (length ws)) /\
+  Forall (ForallOrdPairs (fun i j => r (nth i ws []) (nth j ws []) = true)) gs.
+Proof. exact valid_grouping_sound_l. Qed.
+Print Assumptions valid_grouping_sound.
+
+(* _partition_coeffs (find first identical remaining observable, pop it): whenever the groups are a
+   rearrangement of the input words, the (word, coefficient) pairs are only rearranged, group shapes kept *)
+Theorem coeffs_travel : forall (gs : list (list word)) (obs : list (word * Z)),
+  Permutation (concat gs) (map fst obs) ->
+  map (@length _) (route gs obs) = map (@length _) gs /\
+  Permutation (combine (concat gs) (concat (route gs obs))) obs.
+Proof. exact (@coeffs_travel_l Z). Qed.
+Print Assumptions coeffs_travel.
+
+(* the same routing with indices as payload: _compute_partition_indices_rlf *)
+Theorem indices_travel : forall (gs : list (list word)) (obs : list (word * nat)),
+  Permutation (concat gs) (map fst obs) ->
+  map (@length _) (route gs obs) = map (@length _) gs /\
+  Permutation (combine (concat gs) (concat (route gs obs))) obs.
+Proof. exact (@coeffs_travel_l nat). Qed.
+Print Assumptions indices_travel.
+
+(* group_observables on the rustworkx path: a partition of the input words into pairwise related groups,
+   for every accepted colouring - provided no wire-less observable meets grouping type anticommuting *)
+Theorem group_observables_rx_sound : forall gt n obs cols,
+  Forall (fun o => length (fst o) = n) obs ->
+  with_wires obs <> [] ->
+  properb (adj_matrix gt (symp_matrix (with_wires obs))) cols = true ->
+  Forall (fun w => w = repeat PI n) (no_wires obs) ->
+  (gt <> ANTI \/ no_wires obs = []) ->
+  exists gs, group_observables obs (ORx cols) = Some gs /\
+             Permutation (concat gs) (map fst obs) /\
+             Forall (ForallOrdPairs (fun u v => rel gt u v = true)) gs.
+Proof. exact group_observables_rx_sound_l. Qed.
+Print Assumptions group_observables_rx_sound.
+
+(* ... and that proviso is needed: with a wire-less Identity the first group is not pairwise anticommuting
+   (the faithful model REFUTES the clause for this corner; the real code behaves the same, see the finding) *)
+Theorem anticommuting_wireless_refuted :
+  exists obs cols gs,
+    properb (adj_matrix ANTI (symp_matrix (with_wires obs))) cols = true /\
+    group_observables obs (ORx cols) = Some gs /\
+    forallb (pairwiseb (rel ANTI)) gs = false.
+Proof. exact anticommuting_wireless_refuted_l. Qed.
+Print Assumptions anticommuting_wireless_refuted.
+
+(* diagonalize_qwc_pauli_words: a pairwise qwc group always has a common basis (no exception) ... *)
+Theorem qwc_group_has_basis : forall n g, Forall (fun w => length w = n) g ->
+  ForallOrdPairs (fun u v => qwc u v = true) g -> exists f, full_word n g = Some f.
+Proof. exact qwc_group_has_basis_l. Qed.
+Print Assumptions qwc_group_has_basis.
+
+(* ... and the rotations chosen per wire (RY(-pi/2) for X, RX(pi/2) for Y, none for Z / I) conjugate every
+   member to its Z/I word with sign +1, so the coefficient is unchanged *)
+Theorem qwc_group_diagonalised : forall n g f, Forall (fun w => length w = n) g ->
+  full_word n g = Some f ->
+  forall w, In w g -> conj_word (map gate_of f) w = (1%Z, diag_word w).
+Proof. exact qwc_group_diagonalised_l. Qed.
+Print Assumptions qwc_group_diagonalised.
+
+(* the single-qubit conjugation table used above, from 2x2 matrices over Z[i]:
+   V p V^dagger = |V|^2 * sign * q, V V^dagger = |V|^2 * I, with V = sqrt2 * U for the two rotations
+   (finite domain: 3 gates x 4 letters) *)
+Theorem rotation_table_from_matrices : forall g p,
+  mmul (mmul (gmat g) (pmat p)) (mdag (gmat g)) = mscale (gnorm g * fst (conj1 g p)) (pmat (snd (conj1 g p))) /\
+  mmul (gmat g) (mdag (gmat g)) = mscale (gnorm g) (pmat PI).
+Proof. intros g p; split; [exact (conj1_matrix_l g p) | exact (gmat_unitary_l g)]. Qed.
+Print Assumptions rotation_table_from_matrices.
+
+(* non-vacuity: a concrete input meets the hypotheses used above *)
+Example hyps_satisfiable :
+  let obs := [([PX; PZ], true); ([PZ; PI], true); ([PI; PX], true); ([PI; PI], false)] in
+  let cols := [0%Z; 1%Z; 1%Z] in
+  properb (adj_matrix QWC (symp_matrix (with_wires obs))) cols = true /\
+  group_observables obs (ORx cols) = Some [[[PX; PZ]; [PI; PI]]; [[PZ; PI]; [PI; PX]]] /\
+  partition_coeffs obs [1; 2; 3; 4]%Z [[[PX; PZ]; [PI; PI]]; [[PZ; PI]; [PI; PX]]] = [[1; 4]; [2; 3]]%Z /\
+  full_word 2 [[PZ; PI]; [PI; PX]] = Some [PZ; PX] /\
+  valid_grouping (rel QWC) (map fst obs) [[0; 3]; [1; 2]] = true.
+Proof. vm_compute. repeat split. Qed.
